@@ -5,6 +5,7 @@ function's FunctionDef node comes from the repository's working tree
 (modules.py); nothing is copied or rewritten.
 """
 import ast
+import os
 import z3
 
 from . import ops
@@ -159,6 +160,7 @@ class Engine(object):
         self.cur_mod = mod
         self.pure_depth = 0
         self._ghost_hits = set()
+        self._abstract_hits = set()
         self.fn_stack = [func_node]
         self.cls_stack = [cls_node]
         self._deco_cache = {}
@@ -1558,10 +1560,10 @@ class Engine(object):
         failure means "outside the verified subset", not a crash of the checker)"""
         try:
             return self._call(fv, args, kwargs, st, node)
-        except (AttributeError, KeyError, IndexError, TypeError) as e:
+        except (AttributeError, KeyError, IndexError, TypeError, ValueError, z3.Z3Exception) as e:
             import traceback as _tb
             frames_ = _tb.extract_tb(e.__traceback__)
-            if any("/specs/" in (f.filename or "") for f in frames_[-2:]):
+            if any("/specs/" in (f.filename or "") for f in frames_[-2:]) or (isinstance(e, z3.Z3Exception) and any("/specs/" in (f.filename or "") for f in frames_)):
                 raise EngineError("assumed contract (external) not applicable here: %s: %s" % (type(e).__name__, e))
             raise
 
@@ -1870,7 +1872,84 @@ class Engine(object):
         outs.extend(("normal", s, None) for s in states)
         return outs
 
+    _MUTATORS = ("append", "extend", "insert", "pop", "remove", "clear", "sort", "reverse", "add", "discard", "update",
+                 "setdefault", "popitem", "appendleft", "popleft", "put", "difference_update", "intersection_update",
+                 "symmetric_difference_update")
+
+    def abstract_stmt(self, node, st, decl, key):
+        """`abstracted` statement of a contract: the statement is NOT executed; the variables the contract declares for it are
+        havocked (fresh values of the declared shapes), every other name it assigns becomes undefined.  This over-approximates
+        the statement provided (a) it changes nothing else - checked syntactically here: no attribute/subscript store and no
+        mutating method call on anything but the declared variables and its own temporaries, no return / yield / global /
+        raise, no break or continue that leaves it - and (b) the calls inside it have no other effect and do not raise (listed
+        as an assumption in the evidence).  What is proved with it is a property of the code AROUND the statement."""
+        declared = set(decl)
+        assigned = set()
+        loops_inside = 0
+
+        def base_name(n):
+            while isinstance(n, (ast.Attribute, ast.Subscript)):
+                n = n.value
+            return n.id if isinstance(n, ast.Name) else None
+
+        def visit(n, in_loop):
+            if isinstance(n, (ast.Return, ast.Yield, ast.YieldFrom, ast.Global, ast.Nonlocal, ast.Raise, ast.Try, ast.With, ast.FunctionDef, ast.ClassDef)):
+                raise EngineError("abstracted statement %r contains %s" % (key, type(n).__name__))
+            if isinstance(n, (ast.Break, ast.Continue)) and not in_loop:
+                raise EngineError("abstracted statement %r is left by break/continue" % key)
+            if isinstance(n, (ast.ListComp, ast.SetComp, ast.DictComp, ast.GeneratorExp, ast.Lambda)):
+                # (their variables are local to them; they are expressions - only calls inside matter)
+                for c in ast.walk(n):
+                    if isinstance(c, ast.Call):
+                        check_call(c)
+                return
+            if isinstance(n, ast.Name) and isinstance(n.ctx, (ast.Store, ast.Del)):
+                assigned.add(n.id)
+            if isinstance(n, (ast.Attribute, ast.Subscript)) and isinstance(n.ctx, (ast.Store, ast.Del)):
+                b = base_name(n)
+                if b is None or (b not in declared and b not in assigned):
+                    raise EngineError("abstracted statement %r stores into %s" % (key, ast.unparse(n)))
+            if isinstance(n, ast.Call):
+                check_call(n)
+            if isinstance(n, (ast.For, ast.While)):
+                for c in ast.iter_child_nodes(n):
+                    visit(c, True if c in n.body else in_loop)
+            else:
+                for c in ast.iter_child_nodes(n):
+                    visit(c, in_loop)
+
+        def check_call(c):
+            if isinstance(c.func, ast.Attribute) and c.func.attr in self._MUTATORS:
+                b = base_name(c.func.value)
+                if b is None or (b not in declared and b not in assigned):
+                    raise EngineError("abstracted statement %r calls %s on something it does not own" % (key, ast.unparse(c.func)))
+
+        # two passes so that temporaries assigned later in the statement are known when an earlier mutation is looked at
+        for _ in range(2):
+            visit(node, False)
+        s = st.copy()
+        env = dict(s.env)
+        for name in assigned - declared:
+            env.pop(name, None)
+        s.env = env
+        facts = []
+        for name, shape in decl.items():
+            v, f = fresh(shape, name)
+            s.env[name] = v
+            facts.extend(f)
+        if facts:
+            s = s.assume(*facts)
+        self._abstract_hits.add(key)
+        return [("normal", s, None)]
+
     def exec_stmt(self, node, st):
+        ab = self.options.get("abstracted")
+        if ab and self.in_main and not self.pure_depth:
+            text = ast.unparse(node)
+            head = text.split("\n")[0].strip()
+            for key, decl in ab.items():
+                if key == text or key == head:
+                    return self.abstract_stmt(node, st, decl, key)
         m = getattr(self, "st_" + type(node).__name__, None)
         if m is None:
             raise EngineError("statement %s not in the subset (line %d)" % (type(node).__name__, node.lineno))
@@ -2310,7 +2389,7 @@ class Engine(object):
                 # concrete in every round, plus the unwinding obligation hi - lo <= unroll (complete when it is discharged)
                 hdr_ = self.mod.segment(node).split("\n")[0].strip()
                 if spec.header is not None and hdr_ != spec.header.strip():
-                    raise EngineError("loop %d header changed: expected %r, found %r" % (ordn, spec.header, hdr_))
+                    self.note_header_change(ordn, spec.header, hdr_)
                 ar = Arith(lambda *x: None)
                 states = [s]
                 for i in range(spec.unroll + 1):
@@ -2419,12 +2498,26 @@ class Engine(object):
                         recv.add(b.id)
         return names, recv
 
+    def note_header_change(self, ordn, expected, found):
+        """The header of a loop under contract no longer reads as the contract recorded it.  The contract's invariants are tried
+        on the loop as it is now: if every obligation is still discharged the proof is a proof of the changed loop (inductive
+        invariants are sound whichever loop they were written for); if not, the function counts as outside the subset for this
+        run - except for refutations that replay natively against the real code, which are violations whatever the loop looks
+        like (pyvc.verify / pyvc.driver: `tentative`)."""
+        msg = "loop %d header changed: expected %r, found %r" % (ordn, expected, found)
+        if os.environ.get("VERIF_STRICT_HEADERS") == "1":
+            raise EngineError(msg)
+        if not hasattr(self, "header_changes"):
+            self.header_changes = []
+        if msg not in self.header_changes:
+            self.header_changes.append(msg)
+
     def loop_with_invariant(self, node, st, spec, ordn, itv):
         """Verify a loop by its invariant: init, havoc, one arbitrary iteration, exit."""
         if spec.header is not None:
             hdr = self.mod.segment(node).split("\n")[0].strip()
             if hdr != spec.header.strip():
-                raise EngineError("loop %d header changed: expected %r, found %r" % (ordn, spec.header, hdr))
+                self.note_header_change(ordn, spec.header, hdr)
         is_for = isinstance(node, ast.For)
         kname = "_k%d" % ordn
         con = self.options["contract"]
